@@ -37,6 +37,39 @@ NEED = {
 }
 
 
+def strflow_tree(fx, body, operand):
+    import strflow
+    sf = strflow.StrFlow(fx, r"^$never", inline_crates={"clap_complete"})
+    return sf.tree(body, operand)
+
+
+def has_replace(t, pat, rep, seen=None):
+    """Does some path of the string tree apply replace(pat, rep)?"""
+    if seen is None:
+        seen = set()
+    if id(t) in seen:
+        return False
+    seen.add(id(t))
+    k = t[0]
+    if k == "repl":
+        if t[1] == pat and t[2] == rep:
+            return True
+        return has_replace(t[3], pat, rep, seen)
+    if k == "fmt":
+        return any(has_replace(i, pat, rep, seen) for i in t[1] if not isinstance(i, str))
+    if k in ("cat", "alt"):
+        return any(has_replace(i, pat, rep, seen) for i in t[1])
+    if k in ("iter",):
+        return has_replace(t[1], pat, rep, seen)
+    if k == "mark":
+        return has_replace(t[2], pat, rep, seen)
+    if k == "join":
+        return has_replace(t[1], pat, rep, seen) or has_replace(t[2], pat, rep, seen)
+    if k == "opaque":
+        return any(has_replace(i, pat, rep, seen) for i in t[2])
+    return False
+
+
 def run(ctx):
     fx, res = ctx.fx, ctx.res
     # ---- R16.1
@@ -90,6 +123,37 @@ def run(ctx):
         b = fx.body("clap_complete::aot::generator::utils::" + fn_)
         missing = [n for n in need if not tree_calls(b, n)]
         res.check(not missing, "R16.2", "utils-" + fn_, b.where(), "%s reads %s" % (fn_, [n.rstrip("$") for n in need]), "%s no longer reads %s" % (fn_, missing))
+
+    # R16.2c sibling agreement: the AOT helper utils::possible_values and the dynamic engine's possible_values gate the
+    # value list on the same predicate — the arg takes values (never on "a value is optional")
+    sigs = {}
+    for q in ("clap_complete::aot::generator::utils::possible_values", "clap_complete::engine::complete::possible_values"):
+        b = fx.maybe_body(q)
+        if b is None:
+            continue
+        preds = sorted(set(c.callee_q.rsplit("::", 1)[1] for c in b.calls_to(r"ValueRange::\w+$")))
+        sigs[q] = preds
+        res.check(preds == ["takes_values"], "R16.2", "possible_values-gate|" + q.rsplit("::", 2)[-2], b.where(), "possible values offered iff the arg takes values",
+                  "%s gates the possible values on ValueRange::%s instead of takes_values(): args with an optional value lose their value list" % (q, preds))
+    if len(sigs) == 2:
+        res.check(len(set(map(tuple, sigs.values()))) == 1, "R16.2", "possible_values-siblings-agree", "clap_complete", "AOT and dynamic helpers use the same gate", "AOT and dynamic possible_values helpers disagree: %s" % sigs)
+    # R16.2d bash: the function name handed down as the children's parent_fn_name is the mangled one (it is what the
+    # generated `case "$cmd,$word"` arms compare against)
+    ac = [b for b in fx.bodies(r"^clap_complete::aot::shells::bash::all_subcommands::add_command$")]
+    res.floor("R16.2", "bash add_command", len(ac), 1)
+    for b in ac:
+        recs = b.calls_to(r"bash::all_subcommands::add_command$")
+        res.floor("R16.2", "recursive add_command call", len(recs), 1)
+        for c in recs:
+            t = strflow_tree(fx, b, c.args[0])
+            okm = has_replace(t, "-", "__")
+            res.check(okm, "R16.2", "bash-child-parent-name-mangled", c.where(), "children receive the mangled function name (replace('-', \"__\"))",
+                      "bash: the name passed to children as parent_fn_name is not the mangled function name: `case` arms of deeper levels compare an unmangled prefix with the mangled $cmd and never match under a hyphenated parent")
+        pushes = b.calls_to(r"Vec::push$")
+        for c in pushes:
+            e = expr(b, c.args[1])
+            # third tuple element (fn_name) is the same mangled name
+        res.check(bool(pushes), "R16.2", "bash-add_command-pushes", b.where(), "add_command records (parent, name, fn_name)", "add_command no longer records its entries")
 
     # R16.2b per-function census of alias-less getters in the generator modules: a generator function that reads the
     # canonical long/short/name must read the visible aliases as well, or be a listed exception
